@@ -1,16 +1,33 @@
 /-
   C13 — Same commands give the same answers; ucinewgame forgets everything.
-  What is machine-checked here: `ucinewgame` resets the engine model to exactly the initial state (up to
-  the index of the key draw), the transcript of a script is a function of the script and the key draws
-  alone, and nothing in the search inspects a key except through `hash`.  The full key-independence
-  simulation (`SearchKeyIndependent` below) is stated and decided per run black-box: the real binary is
-  run in several processes (fresh random keys each) and must produce byte-identical transcripts, which
-  must equal the model's transcript under the model's own keys.
+
+  "For depth-limited searches the complete output (scores, node counts, principal moves, bestmove) is a
+  function of the command sequence alone: it is identical in every process run, so it does not depend on the
+  random hash keys drawn at start-up.  After ucinewgame the engine behaves exactly like a freshly started
+  process."
+
+  What is machine-checked here:
+  * `ucinewgame` resets the engine model to exactly the initial state (up to the index of the key draw);
+  * `search_key_independent` (and its more general forms): two processes with different key draws print the
+    same transcript for the same script, provided the key tables have no collision among the boards the
+    run hashes (`visited`: the boards of the `position` commands and the boards within `D` plies of the
+    current board for every `go` of depth `D`).  The simulation behind it is in `Lemmas/KeySim*.lean`; the
+    search-level core is `KeySim.findBestMove_key_independent`, with a machine-checked example that the
+    hypothesis cannot be dropped (`KeySim.key_dependence_without_injectivity`);
+  * `ucinewgame_like_fresh_process`: after `ucinewgame` the rest of the transcript is the transcript of a
+    fresh process whose key stream starts at the next draw; with key independence: of ANY fresh process.
+
+  The first target statement, `SearchKeyIndependent`, asked for a key table that is injective on ALL boards.
+  No such table exists (`no_injective_keys`: the hash does not read the move counters), so that statement is
+  vacuous (`searchKeyIndependent_vacuous`); it is kept below for the record.
 -/
 import Flounder.Model.Engine
+import Flounder.Lemmas.KeySimEngine
+import Flounder.Lemmas.KeySimToy
+import Flounder.Lemmas.KeySimExample
 
 namespace Flounder.Props.C13
-open Flounder Flounder.Engine
+open Flounder Flounder.Engine Flounder.Search Flounder.KeySim Flounder.Lemmas.Uci
 
 /-- after `ucinewgame` the engine state is the initial state, except that the next key table is used. -/
 theorem ucinewgame_is_fresh (ctx : EngineCtx) (e : Engine) :
@@ -34,12 +51,152 @@ theorem transcript_deterministic (ctx : EngineCtx) (script : List (List Char)) (
     ∀ r₁ r₂, r₁ = uciLoop ctx script e → r₂ = uciLoop ctx script e → r₁ = r₂ := by
   intro r₁ r₂ h₁ h₂; rw [h₁, h₂]
 
-/-- FULL STATEMENT (target): for key draws that are collision-free on the positions visited, the whole
-    transcript does not depend on the keys. -/
+/-! ### the first target statement is vacuous -/
+
+/-- FIRST TARGET STATEMENT (kept for the record, superseded by `search_key_independent`): key draws that are
+    collision-free on ALL boards.  Its hypothesis is unsatisfiable, see `no_injective_keys`. -/
 def SearchKeyIndependent : Prop :=
   ∀ (mg : MoveGenerator) (keys₁ keys₂ : Nat → ZKeys) (script : List (List Char)),
     (∀ i, ∀ b₁ b₂ : Board, hash (keys₁ i) b₁ = hash (keys₁ i) b₂ → b₁ = b₂) →
     (∀ i, ∀ b₁ b₂ : Board, hash (keys₂ i) b₁ = hash (keys₂ i) b₂ → b₁ = b₂) →
     uciLoop { mg := mg, keys := keys₁ } script {} = uciLoop { mg := mg, keys := keys₂ } script {}
+
+/-- the hash reads neither the half-move clock nor the move number. -/
+theorem hash_ignores_counters (k : ZKeys) (b : Board) (h f : Nat) :
+    hash k { b with halfmove := h, fullmove := f } = hash k b := rfl
+
+/-- no key table is injective on all boards. -/
+theorem no_injective_keys (k : ZKeys) : ¬ ∀ b₁ b₂ : Board, hash k b₁ = hash k b₂ → b₁ = b₂ := by
+  intro h
+  have := h { Board.startpos with halfmove := 1, fullmove := 1 } Board.startpos
+    (hash_ignores_counters k Board.startpos 1 1)
+  have h2 := congrArg Board.halfmove this
+  exact absurd h2 (by decide)
+
+/-- hence the first target statement holds for the trivial reason. -/
+theorem searchKeyIndependent_vacuous : SearchKeyIndependent :=
+  fun _ keys₁ _ _ h₁ _ => absurd (h₁ 0) (no_injective_keys (keys₁ 0))
+
+/-! ### key independence of the transcript -/
+
+/-- two boards that EVERY key table hashes alike (e.g. boards that differ only in the move counters). -/
+def HashedAlike (p q : Board) : Prop := ∀ k : ZKeys, hash k p = hash k q
+
+/-- **general form**: the two key streams have the same collisions (draw by draw) on a set `U` that
+    contains every board the run hashes.  The whole transcript — `info` lines with scores, node counts
+    and pv, `bestmove` lines, everything else — and the outcome are equal. -/
+theorem search_key_independent_of_same_collisions (mg : MoveGenerator) (qfuel : Nat) (keys₁ keys₂ : Nat → ZKeys)
+    (script : List (List Char)) (U : Board → Prop)
+    (hU : ∀ q, visited mg script Board.startpos q → U q)
+    (hk : ∀ i p q, U p → U q → (hash (keys₁ i) q = hash (keys₁ i) p ↔ hash (keys₂ i) q = hash (keys₂ i) p)) :
+    uciLoop ⟨mg, keys₁, qfuel⟩ script {} = uciLoop ⟨mg, keys₂, qfuel⟩ script {} :=
+  uciLoop_rel (U := U) hk script {} {} erel_fresh hU
+
+/-- **C13, first half**: key draws that are collision-free on the boards the run hashes give the same
+    transcript (scores, node counts, principal moves, bestmove) and the same outcome. -/
+theorem search_key_independent (mg : MoveGenerator) (qfuel : Nat) (keys₁ keys₂ : Nat → ZKeys)
+    (script : List (List Char)) (U : Board → Prop)
+    (hU : ∀ q, visited mg script Board.startpos q → U q)
+    (h₁ : ∀ i, ∀ p q, U p → U q → hash (keys₁ i) p = hash (keys₁ i) q → p = q)
+    (h₂ : ∀ i, ∀ p q, U p → U q → hash (keys₂ i) p = hash (keys₂ i) q → p = q) :
+    uciLoop ⟨mg, keys₁, qfuel⟩ script {} = uciLoop ⟨mg, keys₂, qfuel⟩ script {} :=
+  search_key_independent_of_same_collisions mg qfuel keys₁ keys₂ script U hU
+    (fun i p q hp hq =>
+      ⟨fun h => by rw [h₁ i q p hq hp h], fun h => by rw [h₂ i q p hq hp h]⟩)
+
+/-- the same for runs that hash two boards differing only in the move counters, where NO key table is
+    injective.  (`make_move` never changes the counters, so inside one search every board carries the counters of
+    its root; the case arises across `position fen` commands that give the same placement with different
+    counters.)  It suffices that the only collisions are those every key table has. -/
+theorem search_key_independent_upto_counters (mg : MoveGenerator) (qfuel : Nat) (keys₁ keys₂ : Nat → ZKeys)
+    (script : List (List Char)) (U : Board → Prop)
+    (hU : ∀ q, visited mg script Board.startpos q → U q)
+    (h₁ : ∀ i, ∀ p q, U p → U q → hash (keys₁ i) p = hash (keys₁ i) q → HashedAlike p q)
+    (h₂ : ∀ i, ∀ p q, U p → U q → hash (keys₂ i) p = hash (keys₂ i) q → HashedAlike p q) :
+    uciLoop ⟨mg, keys₁, qfuel⟩ script {} = uciLoop ⟨mg, keys₂, qfuel⟩ script {} :=
+  search_key_independent_of_same_collisions mg qfuel keys₁ keys₂ script U hU
+    (fun i p q hp hq => ⟨fun h => h₁ i q p hq hp h _, fun h => h₂ i q p hq hp h _⟩)
+
+/-! ### after `ucinewgame` like a fresh process -/
+
+/-- **C13, second half**: if the run of `pre` from the initial state ends with the engine still running
+    (no quit, no panic) and no pending deadline instrumentation, then the transcript of
+    `pre ++ [ucinewgame] ++ suf` is the transcript of `pre` followed by the transcript of `suf` in a FRESH
+    engine whose key stream starts at the next draw — with the same outcome. -/
+theorem ucinewgame_like_fresh_process (ctx : EngineCtx) (pre suf : List (List Char)) (line : List Char)
+    (hline : (splitWs line).head? = some kwUcinewgame)
+    (hrun : (runLines ctx pre {}).2.2 = .running)
+    (hnl : (runLines ctx pre {}).2.1.nextLimit = none) :
+    uciLoop ctx (pre ++ line :: suf) {} =
+      ((runLines ctx pre {}).1 ++
+          (uciLoop (shiftCtx ((runLines ctx pre {}).2.1.newGames + 1) ctx) suf {}).1,
+        (uciLoop (shiftCtx ((runLines ctx pre {}).2.1.newGames + 1) ctx) suf {}).2) := by
+  rw [uciLoop_append_running ctx pre (line :: suf) {} hrun]
+  rw [uciLoop_cons_running ctx _ _ line suf [] (handleCommand_ucinewgame ctx _ line hline)]
+  rw [hnl, List.nil_append]
+  have he : ∀ n : Nat, ({ board := Board.startpos, search := {}, newGames := n + 1, nextLimit := none } : Engine) =
+      shiftE (n + 1) {} := by
+    intro n; simp only [shiftE, Nat.zero_add]
+  rw [he, uciLoop_shift]
+
+/-- … and therefore of ANY fresh process, whatever keys it draws, as long as neither key stream collides on
+    the boards the rest of the script hashes. -/
+theorem ucinewgame_like_new_process (mg : MoveGenerator) (qfuel : Nat) (keys keys' : Nat → ZKeys)
+    (pre suf : List (List Char)) (line : List Char) (hline : (splitWs line).head? = some kwUcinewgame)
+    (hrun : (runLines ⟨mg, keys, qfuel⟩ pre {}).2.2 = .running)
+    (hnl : (runLines ⟨mg, keys, qfuel⟩ pre {}).2.1.nextLimit = none)
+    (U : Board → Prop) (hU : ∀ q, visited mg suf Board.startpos q → U q)
+    (h₁ : ∀ i, ∀ p q, U p → U q → hash (keys i) p = hash (keys i) q → p = q)
+    (h₂ : ∀ i, ∀ p q, U p → U q → hash (keys' i) p = hash (keys' i) q → p = q) :
+    uciLoop ⟨mg, keys, qfuel⟩ (pre ++ line :: suf) {} =
+      ((runLines ⟨mg, keys, qfuel⟩ pre {}).1 ++ (uciLoop ⟨mg, keys', qfuel⟩ suf {}).1,
+        (uciLoop ⟨mg, keys', qfuel⟩ suf {}).2) := by
+  rw [ucinewgame_like_fresh_process ⟨mg, keys, qfuel⟩ pre suf line hline hrun hnl]
+  have := search_key_independent mg qfuel
+    (fun i => keys (i + ((runLines ⟨mg, keys, qfuel⟩ pre {}).2.1.newGames + 1))) keys' suf U hU
+    (fun i => h₁ _) h₂
+  exact congrArg (fun r => ((runLines ⟨mg, keys, qfuel⟩ pre {}).1 ++ r.1, r.2)) this
+
+
+/-! ### non-vacuity
+
+  A script with two `position` commands, two depth-limited `go`s and a `ucinewgame` between them hashes two
+  boards (`Example.UB`); the key streams `keyW 1` and `keyW 2` are different (`Example.keyW_differ`) and both
+  collision-free on these boards.  All hypotheses of the three theorems hold, for every table `mg` and every
+  fuel.  (At the search level, in a toy game with a non-empty repetition stack, and the necessity of the hypothesis:
+  `KeySim.toy_key_independent`, `KeySim.toy_key_independent_value`, `KeySim.key_dependence_without_injectivity`.) -/
+
+theorem search_key_independent_example (mg : MoveGenerator) (qfuel : Nat) :
+    uciLoop ⟨mg, fun _ => Example.keyW 1, qfuel⟩ Example.script {} =
+      uciLoop ⟨mg, fun _ => Example.keyW 2, qfuel⟩ Example.script {} :=
+  search_key_independent mg qfuel _ _ Example.script Example.UB (Example.script_visited mg)
+    (fun _ => Example.keyW_inj 1 (by decide)) (fun _ => Example.keyW_inj 2 (by decide))
+
+theorem ucinewgame_like_fresh_process_example (ctx : EngineCtx) :
+    uciLoop ctx ([Example.l1, Example.l2] ++ Example.l3 :: Example.suffix) {} =
+      ((runLines ctx [Example.l1, Example.l2] {}).1 ++
+          (uciLoop (shiftCtx ((runLines ctx [Example.l1, Example.l2] {}).2.1.newGames + 1) ctx) Example.suffix {}).1,
+        (uciLoop (shiftCtx ((runLines ctx [Example.l1, Example.l2] {}).2.1.newGames + 1) ctx) Example.suffix {}).2) :=
+  ucinewgame_like_fresh_process ctx _ _ Example.l3 (by rw [Example.split_l3]; rfl)
+    (Example.prefix_runs ctx).1 (Example.prefix_runs ctx).2
+
+theorem ucinewgame_like_new_process_example (mg : MoveGenerator) (qfuel : Nat) :
+    uciLoop ⟨mg, fun _ => Example.keyW 1, qfuel⟩ ([Example.l1, Example.l2] ++ Example.l3 :: Example.suffix) {} =
+      ((runLines ⟨mg, fun _ => Example.keyW 1, qfuel⟩ [Example.l1, Example.l2] {}).1 ++
+          (uciLoop ⟨mg, fun _ => Example.keyW 2, qfuel⟩ Example.suffix {}).1,
+        (uciLoop ⟨mg, fun _ => Example.keyW 2, qfuel⟩ Example.suffix {}).2) :=
+  ucinewgame_like_new_process mg qfuel _ _ _ _ Example.l3 (by rw [Example.split_l3]; rfl)
+    (Example.prefix_runs _).1 (Example.prefix_runs _).2 Example.UB (Example.suffix_visited mg)
+    (fun _ => Example.keyW_inj 1 (by decide)) (fun _ => Example.keyW_inj 2 (by decide))
+
+
+/-- non-vacuity of `search_key_independent_upto_counters`, in a situation where `search_key_independent` does
+    not apply (`Example.UC_not_injective`): the run hashes two boards that differ only in the move counters.
+    Holds for ALL key streams, since the only collision is one every key table has. -/
+theorem search_key_independent_upto_counters_example (mg : MoveGenerator) (qfuel : Nat) (keys₁ keys₂ : Nat → ZKeys) :
+    uciLoop ⟨mg, keys₁, qfuel⟩ Example.script2 {} = uciLoop ⟨mg, keys₂, qfuel⟩ Example.script2 {} :=
+  search_key_independent_upto_counters mg qfuel keys₁ keys₂ Example.script2 Example.UC (Example.script2_visited mg)
+    (fun _ p q hp hq _ k => Example.UC_hashed_alike k p q hp hq)
+    (fun _ p q hp hq _ k => Example.UC_hashed_alike k p q hp hq)
 
 end Flounder.Props.C13
